@@ -85,13 +85,6 @@ func (fc *fnCtx) resolveCallee(c *ssa.CallCommon) *callee {
 	}
 	ce.params, ce.ptypes = sigParams(fn.Signature, recvT)
 	// prefer real parameter names when the body is available
-	if len(fn.Params) == len(ce.params) {
-		for i, p := range fn.Params {
-			if p.Name() != "" && p.Name() != "_" {
-				ce.params[i] = p.Name()
-			}
-		}
-	}
 	obj := fn.Object()
 	var pkg *types.Package
 	if obj != nil {
@@ -103,6 +96,16 @@ func (fc *fnCtx) resolveCallee(c *ssa.CallCommon) *callee {
 	}
 	ce.pkg = pkg
 	ce.external = !fc.g.isInternalPkg(pkg)
+	if len(fn.Params) == len(ce.params) {
+		for i, p := range fn.Params {
+			if i == 0 && recvT != nil && ce.external {
+				continue // externals: the receiver is always called recv
+			}
+			if p.Name() != "" && p.Name() != "_" {
+				ce.params[i] = p.Name()
+			}
+		}
+	}
 	if ce.external {
 		ce.name = fn.String()
 		ce.con = fc.g.CS.ByFunc["ext::"+ce.name]
@@ -215,8 +218,8 @@ func (fc *fnCtx) applyCall(st *State, ce *callee, c *ssa.CallCommon, args []Val,
 			fc.note("call to %s: contract has no assigns clause, whole heap havoc'd", ce.name)
 			fc.havocAll(st)
 		}
-		fc.bumpAlloc(st)
 	}
+	fc.bumpAlloc(st)
 	res = fc.freshVal(st, "r."+shortName(ce.name), resT)
 	post := &Env{fc: fc, st: st, old: pre, pkg: ce.pkg, vars: env.vars}
 	if len(res.Tup) > 0 {
@@ -331,21 +334,28 @@ func (fc *fnCtx) pureFacts(ce *callee, con *Contract, args []Val, res []Val) {
 
 // havocAssigns havocs the locations listed in the callee's assigns clause.
 func (fc *fnCtx) havocAssigns(st *State, env *Env, con *Contract) {
+	// all targets are evaluated in the pre-state
+	pre := *env
+	pre.st = st.clone()
+	pre.old = pre.st
+	var tgs []assignTarget
 	for _, a := range con.Assigns {
-		fc.havocLvalue(st, env, a)
+		tgs = append(tgs, fc.assignTarget(&pre, a))
+	}
+	for _, tg := range tgs {
+		fc.applyHavoc(st, tg)
 	}
 }
 
-// havocLvalue havocs one assigns target, evaluated in env (pre-state).
-//   x.f            the field f of object x
+// assigns targets:
+//   x.f            the field f of object x (all leaves if f is a struct)
+//   *p             the cell / struct p points to
 //   elems(s)       the backing array of slice s
+//   map(m)         the content of map m
 //   all(T.f)       field f of every object of struct type T
 //   allelems(T)    every backing array with element type T
-//   map(m)         the content of map m
-//   *p             the cell p points to
 //   heap           everything
-func (fc *fnCtx) havocLvalue(st *State, env *Env, text string) {
-	tg := fc.assignTarget(env, text)
+func (fc *fnCtx) applyHavoc(st *State, tg assignTarget) {
 	switch tg.kind {
 	case "everything":
 		fc.havocAll(st)
